@@ -95,21 +95,34 @@ def run(ch: Checker) -> None:
     else:
         lp = loops[0]
         sends = [c for c in walk_no_nested(lp) if isinstance(c, ast.Call) and isinstance(c.func, ast.Attribute) and c.func.attr == 'send']
-        ok = len(sends) == 1 and len(sends[0].args) == 1 and norm(sends[0].args[0]) == evp
-        di = dict_iter(lp.target, lp.iter, TABLE) or {}
-        recv_ok = False
-        if ok:
-            recv = sends[0].func.value
-            if isinstance(recv, ast.Name):
-                stores = [n_ for n_ in walk_no_nested(lp) if isinstance(n_, ast.Name) and n_.id == recv.id and isinstance(n_.ctx, ast.Store)]
-                if recv.id == di.get('value') and len(stores) == 1:          # `for k, conn in T.items(): conn.send(ev)` (the only store is the loop target)
-                    recv_ok = True
-                else:                                                        # `conn = T[k]; conn.send(ev)`
-                    asg = [n_ for n_ in walk_no_nested(lp) if isinstance(n_, ast.Assign) and len(n_.targets) == 1 and norm(n_.targets[0]) == recv.id]
-                    if len(asg) == 1 and len(stores) == 1:
-                        recv = asg[0].value
-            if not recv_ok and di.get('key') is not None:
-                recv_ok = norm(recv) == '%s[%s]' % (TABLE, di['key'])
+        # decided on paths and by value (the send may sit in an inlined helper, behind locals): one iteration = one send(ev) to the subscriber the loop is at
+        import re as _re
+        g2 = cfg_of(bc, prog, exc_edges=False)
+        head2 = [n_ for n_ in g2.nodes if n_.kind == 'for' and n_.ast is lp]
+        ok = recv_ok = bool(head2)
+        n_it = 0
+        for p in fpaths(g2) if head2 else []:
+            idxs = [i for i, (nid, lab) in enumerate(p.steps) if nid == head2[0].id]
+            if not idxs or p.steps[idxs[0]][1] != 'iter' or p.coarse:
+                continue
+            n_it += 1
+            end2 = idxs[1] if len(idxs) > 1 else len(p.steps)
+            sym2 = Sym(p)
+            found = []
+            for i, nd, lab in p.executed():
+                if not (idxs[0] < i < end2) or nd.ast is None or nd.kind not in ('stmt', 'test'):
+                    continue
+                for c_ in walk_no_nested(nd.ast):
+                    if isinstance(c_, ast.Call) and isinstance(c_.func, ast.Attribute) and c_.func.attr == 'send':
+                        found.append((norm(sym2.value(c_.func.value, i)), [norm(sym2.value(a_, i)) for a_ in c_.args]))
+            if len(found) != 1 or found[0][1] != [evp]:
+                ok = False
+            else:
+                r_ = _re.sub(r'__iter__\((?:list|tuple)\((.*?)\)\)', r'__iter__(\1)', found[0][0])
+                if r_ not in ('%s[__iter__(%s)]' % (TABLE, TABLE), '%s[__iter__(%s.keys())]' % (TABLE, TABLE), '__iter__(%s.items())[1]' % TABLE,
+                              '%s[__iter__(%s.items())[0]]' % (TABLE, TABLE), '__iter__(%s.values())' % TABLE):
+                    recv_ok = False
+        ok = ok and n_it > 0
         ch.check(ok and recv_ok, 'C18.2', bc, 'one send per subscriber', 'each subscriber gets send(%s) once per event' % evp,
                  'the fan-out loop does not send the event itself exactly once to each subscriber: %s' % [norm(s) for s in sends])
         if sends:
